@@ -131,11 +131,11 @@ theorem drain_filter (tp : Spec.Topo) (rf : Nat → Nat) (dc : Nat) (P : List Ho
       by_cases hx : x ∈ P
       · obtain ⟨hx1, hx2⟩ := hP x (List.mem_cons_self ..) hx
         have hf : (x :: xs).filter (fun x => decide (x ∉ P)) = xs.filter (fun x => decide (x ∉ P)) := by
-          simp [List.filter_cons, hx]
+          simp [hx]
         rw [hf, sadd_of_mem _ _ hx1, sadd_of_mem _ _ hx2, upd_self]
         exact ih a a' h1 h2 (fun y hy => hP y (List.mem_cons_of_mem _ hy))
       · have hf : (x :: xs).filter (fun x => decide (x ∉ P)) = x :: xs.filter (fun x => decide (x ∉ P)) := by
-          simp [List.filter_cons, hx]
+          simp [hx]
         have hstep' : Spec.drainSk tp rf dc a' (x :: xs.filter (fun x => decide (x ∉ P))) =
             Spec.drainSk tp rf dc { a' with dcReplicas := upd a'.dcReplicas dc (Spec.sadd (a'.dcReplicas dc) x),
                                             replicas := Spec.sadd a'.replicas x }
